@@ -10,7 +10,7 @@
 #include "../fw/simbus.h"
 #include "../fw/cfgmodel.h"
 #include "../fw/statedump.h"
-#include "/repo/include/bidib.h"
+#include "include/bidib.h"
 #include <stdio.h>
 #include <stdlib.h>
 #include <string.h>
